@@ -134,8 +134,10 @@ def plan(tier, seed, workdir):
             pre = [f'len(ids) == {n}', f'all(0 <= x < {len(alpha)} for x in ids)']
             body += hgen.harness('diff', 'ids: List[int]', pre, core_call=f'core_diff(ids, {mode})')
             path = hgen.write_module(workdir, f'c20_{nl}x{nr}_m{mode}', body)
+            import itertools
+            dom = [list(c) for c in itertools.product(range(len(alpha)), repeat=n)] if len(alpha) ** n <= 1100 else None
             hgen.ch_tasks(p, path, 'diff', timeout, twin_timeout=60, est=min(timeout, 2 * len(alpha) ** n), family='diffLines', nl=nl, nr=nr,
-                          mode=['arrays', 'LF text', 'CRLF text'][mode])
+                          mode=['arrays', 'LF text', 'CRLF text'][mode], enum={'ids': dom} if dom else None)
     p.add({'kind': 'native', 'id': 'includes_native', 'module': 'vf.props.c20', 'fn': 'includes_native', 'kwargs': {}, 'timeout': 120},
           family='shipped includes parse/validate/lint (native by-product, finite set)')
     p.rule = ('one CrossHair condition per (left length, right length, input mode arrays / LF text / CRLF text); symbolic line choices '
